@@ -823,7 +823,7 @@ func first(a, _ []byte) []byte { return a }
 
 //@ spec LeafOK_collation(o) = as(collateLeafNode, o).key.obj != nil && allocated(as(collateLeafNode, o).key.obj) && 0 <= as(collateLeafNode, o).key.idx && as(collateLeafNode, o).key.idx + as(collateLeafNode, o).keyLen <= blen(as(collateLeafNode, o).key.obj) && as(collateLeafNode, o).colKey.obj != nil && allocated(as(collateLeafNode, o).colKey.obj) && 0 <= as(collateLeafNode, o).colKey.idx && as(collateLeafNode, o).colKey.idx + as(collateLeafNode, o).colKeyLen <= blen(as(collateLeafNode, o).colKey.obj)
 //@ spec HeapOK_collation() = forallref(o, implies(inT(o) && allocated(o) && o != nil && !pooled(o), NodeOK(o) && implies(atype(o) == leafT(), LeafOK_collation(o))))
-//@ spec WF1_collation(t) = t != nil && allocated(t) && atype(t) == typeid(collationSortedTree) && leafT() == typeid(collateLeafNode) && rootOK(t.root) && HeapOK_collation() && t.cok.buf != nil && t.cok.c != nil
+//@ spec WF1_collation(t) = t != nil && allocated(t) && atype(t) == typeid(collationSortedTree) && leafT() == typeid(collateLeafNode) && rootOK(t.root) && HeapOK_collation() && t.cok.buf != nil && t.cok.c != nil && scratchLen(t.cok.buf) < 2147483648
 //@ spec WF1in_collation(t) = WF1_collation(t) && LinkedLive() && rootLive(t.root)
 
 //@ func (*collationSortedTree[K,V]).Search
@@ -831,6 +831,7 @@ func first(a, _ []byte) []byte { return a }
 //@   opt casts on
 //@   opt extent on
 //@   requires WF1in_collation(t)
+//@   ensures[scratch_bounded] scratchLen(t.cok.buf) < 2147483648
 //@   ensures[pure] frameExcept("collationSortedTree.cok.src")
 //@   loop 1 (depth)
 //@     invariant 0 <= depth && depth <= len(colKey)
@@ -848,6 +849,7 @@ func first(a, _ []byte) []byte { return a }
 //@   opt extent on
 //@   let rootTag0 = t.root.tag
 //@   requires WF1in_collation(t) && sizeSane(t)
+//@   ensures[scratch_bounded] scratchLen(t.cok.buf) < 2147483648
 //@   assume_at_call (*nodeRef).deleteChild : implies(isMerge(*ptr) && survT(*ptr, b) != 4, survP(*ptr, b) != ptr.obj && as(node, survP(*ptr, b)).prefixLen + as(node4, (*ptr).pointer).prefixLen + 1 < 4294967296)
 //@   ensures[wf] WF1_collation(t)
 //@   ensures[size] t.size == old(t.size) - ite(result, 1, 0)
@@ -885,6 +887,7 @@ func first(a, _ []byte) []byte { return a }
 //@   opt extent on
 //@   opt leaf collateLeafNode
 //@   requires WF1in_collation(t) && sizeSane(t)
+//@   ensures[scratch_bounded] scratchLen(t.cok.buf) < 2147483648
 //@   assume_at_call minimum : LinkedLive()
 //@   pathkey calls("Insert$1")
 //@   ensures[size_accounting] t.size == old(t.size) + calls("Insert$1")
@@ -1000,6 +1003,8 @@ func first(a, _ []byte) []byte { return a }
 //@   loop 5 (i)
 //@     invariant stacksOK(q, depths) && 0 - 1 <= i && i <= 255
 
+// rangeScan$1@collation additionally captures that the bounds it keeps are ordinary byte objects
+// (copies), never storage of the codec's collate.Buffer, which the next Transform overwrites.
 // The signed and float trees instantiate rangeScan with *unsignedLeafNode as well: the cast is
 // justified by the identical field lists of the generated leaf structs (one layout class).
 //@ func rangeScan$1@{unsigned,signed,float}
@@ -1046,6 +1051,7 @@ func first(a, _ []byte) []byte { return a }
 //@   opt casts on
 //@   opt extent on
 //@   captures root.pointer != nil
+//@   captures implies(start.obj != nil, atype(start.obj) == 1000) && implies(end.obj != nil, atype(end.obj) == 1000) && implies(search.obj != nil, atype(search.obj) == 1000)
 //@   requires liveRef(root) && HeapOK_collation() && LinkedLive() && leafT() == typeid(collateLeafNode)
 //@   ensures[pure] frame()
 //@   loop 1 (q)
@@ -1155,6 +1161,7 @@ func first(a, _ []byte) []byte { return a }
 //@   opt casts on
 //@   opt extent on
 //@   requires WF1in_collation(t)
+//@   ensures[scratch_bounded] scratchLen(t.cok.buf) < 2147483648
 //@   ensures[pure] frame()
 
 //@ func (*collationSortedTree[K,V]).Range
@@ -1163,6 +1170,7 @@ func first(a, _ []byte) []byte { return a }
 //@   opt casts on
 //@   opt extent on
 //@   requires WF1in_collation(t)
+//@   ensures[scratch_bounded] scratchLen(t.cok.buf) < 2147483648
 //@   ensures[pure] frame()
 
 //@ func (*{unsigned,signed,float}SortedTree[K,V]).Range
